@@ -2063,6 +2063,10 @@ class Result:
             p: The pairs that must exist across all comparison levels in order to be included.
         """
 
+        #when only one of the two is given the other is its natural default (compare learners, pair over environments)
+        if p and not l: l = 'learner_id'
+        if l and not p: p = 'environment_id'
+
         result = self.copy()
         if l or p: result = result._group_p(l,p)
         if n     : result = result._global_n(n)
